@@ -189,6 +189,7 @@ def run(ctx):
         _, atom, reader, byts, res = v
         seen.add((atom, reader))
         ok = compare(ctx, atom, reader, byts, res)
+        ctx.again(compare, ctx, atom, reader, byts, res)
         ctx.replayed += 1
         if ok and atom[0] in ('addr', 'kh') and atom[2][0] <= 3 and atom[2][-1] == 0 and reader != 'blind':
             ctx.sample({'atom': atom, 'reader': reader, 'bytes': bytes(byts).hex(), 'readable': concretize(atom)}, limit=4)
@@ -196,6 +197,7 @@ def run(ctx):
     expect = len(fillers) * len(firsts) * len(lasts) * (7 * 4 + 4 + 4 + 5 + 1) + 4      # + the PACK look-alikes
     if n_atoms != expect:
         raise MachineryError('TLC exported %d atoms, expected %d' % (n_atoms, expect))
+    ctx.second_pass()
     ctx.exhaustive = True
 
 
